@@ -50,6 +50,8 @@ def case(draw, maxn=5):
         pool.append(g)
     src = draw(st.lists(st.integers(0, npool - 1), min_size=n, max_size=n))
     tgt = draw(st.lists(st.integers(0, npool - 1), min_size=m, max_size=m))
+    if draw(st.integers(0, 7)) == 0:
+        tgt = list(src)  # a list matched against itself
     tb = ts * draw(st.sampled_from([2.0**-6, 2.0**-3, 1.0]))
     fb = fs * draw(st.sampled_from([2.0**-6, 2.0**-3, 1.0]))
     return {"pool": pool, "src": src, "tgt": tgt, "tb": tb, "fb": fb}
@@ -201,6 +203,19 @@ def check(spec, ctx):
         ctx.fail("match_geometries gives a different answer when called again with the same arguments", spec, again, out, kind="not_repeatable")
     ctx.case(spec, nontrivial=nontrivial, labels=[f"size={n}x{m}", "ties" if ties else "noties", "allzero" if flat and not any(flat) else "mixed"], out={"matches": [[a, b, c] for a, b, c in out]})
 
+    # the same call with the buffers passed positionally (documented order: source, target, time_buffer, freq_buffer), with tuples
+    # instead of lists, and - when both sides list the same pool entries - with one list object on both sides
+    pos = list(match_geometries(src, tgt, tb, fb))
+    if pos != out:
+        ctx.fail("match_geometries(source, target, tb, fb) with positional buffers differs from the keyword call", spec, pos, out, kind="positional")
+    tup = list(match_geometries(tuple(src), tuple(tgt), time_buffer=tb, freq_buffer=fb))
+    if tup != out:
+        ctx.fail("match_geometries on tuples differs from the call on lists", spec, tup, out, kind="tuple_inputs")
+    if spec["src"] == spec["tgt"]:
+        same = list(match_geometries(src, src, time_buffer=tb, freq_buffer=fb))
+        if same != out:
+            ctx.fail("match_geometries(x, x) with one list object on both sides differs from the call with two equal lists", spec, same, out, kind="same_list_object")
+        ctx.label("same_list_object")
     # omitted buffers mean the documented defaults (0.01 s, 100 Hz)
     if n * m <= 9:
         d1 = [(a, b, c) for a, b, c in match_geometries(src, tgt)]
@@ -240,6 +255,26 @@ def check(spec, ctx):
             raise AssertionError("oracle self-check failed: DP and enumeration disagree")
     if abs(total - best) > 1e-9:
         ctx.fail(f"total reported affinity {total} is not the maximum {best} over one-to-one pairings", spec, total, best, kind="optimal")
+
+    # lists of geometries derived from the ones just matched (copies with moved coordinates; the same objects after re-assignment)
+    # are matched like freshly built lists
+    from vf.oracles.shp import shift_spec_time
+
+    step = max(tb, 2.0**-10) * 3
+    try:
+        fresh_pool = [data.geometry_validate({"type": g.type, "coordinates": shift_spec_time(g.type, g.coordinates, step * (i % 3))}, mode="dict") for i, g in enumerate(pool)]
+    except ValueError:
+        return
+    want = ctx.call(spec, "match_geometries(freshly built moved lists)", lambda: list(match_geometries([fresh_pool[i] for i in spec["src"]], [fresh_pool[i] for i in spec["tgt"]], time_buffer=tb, freq_buffer=fb)))
+    der_pool = [g.model_copy(update={"coordinates": f.coordinates}) for g, f in zip(pool, fresh_pool)]
+    got_d = list(match_geometries([der_pool[i] for i in spec["src"]], [der_pool[i] for i in spec["tgt"]], time_buffer=tb, freq_buffer=fb))
+    if got_d != want:
+        ctx.fail("copies derived (model_copy(update=coordinates)) from matched geometries are matched differently from freshly built geometries with the same coordinates", spec, got_d, want, kind="stale_derived")
+    for g, f in zip(pool, fresh_pool):
+        g.coordinates = f.coordinates
+    got_a = list(match_geometries(src, tgt, time_buffer=tb, freq_buffer=fb))
+    if got_a != want:
+        ctx.fail("geometries whose coordinates were re-assigned after a first call are matched differently from freshly built ones", spec, got_a, want, kind="stale_after_assignment")
 
 
 SUBS = [
